@@ -43,18 +43,22 @@ type Lowerer struct {
 	varLo  map[*Term]*big.Int
 	varHi  map[*Term]*big.Int
 	splits map[string][2]string
+	loOf   map[string]splitRec
+	atomIv map[string][2]*big.Int
 	wraps  int
 	Err    error
 	// profile knobs
 	LinIte   bool
-	NoDefine bool
+	NoDefine   bool
+	LoSubst    bool
+	CoefReduce bool
 }
 
 const noCtx = 1 << 30
 
 func NewLowerer(be Backend, ts *TermStore) *Lowerer {
 	return &Lowerer{ts: ts, be: be, declSet: map[string]bool{}, memo: map[*Term]string{}, ivl: map[*Term][2]*big.Int{}, minCtx: noCtx,
-		facts: map[[2]uint32]bool{}, varLo: map[*Term]*big.Int{}, varHi: map[*Term]*big.Int{}, splits: map[string][2]string{}}
+		facts: map[[2]uint32]bool{}, varLo: map[*Term]*big.Int{}, varHi: map[*Term]*big.Int{}, splits: map[string][2]string{}, loOf: map[string]splitRec{}, atomIv: map[string][2]*big.Int{}}
 }
 
 func (l *Lowerer) decl(s string) {
@@ -501,39 +505,234 @@ func (l *Lowerer) signedOf(t *Term) string {
 	return fmt.Sprintf("(ite (>= %s %s) (- %s %s) %s)", e, half, e, pow2(uint(t.W)), e)
 }
 
-// U returns an unwrapped linear Int expression e with value(t) ≡ e (mod 2^W) and the interval of e.
-func (l *Lowerer) U(t *Term) (string, *big.Int, *big.Int) {
+// lin is a linear form  Σ c_i·atom_i + k  over SMT atoms (names or opaque sub-expressions).
+type lin struct {
+	terms map[string]*big.Int
+	order []string
+	k     *big.Int
+}
+
+func newLin() *lin { return &lin{terms: map[string]*big.Int{}, k: new(big.Int)} }
+
+func (a *lin) addAtom(name string, c *big.Int) {
+	if old, ok := a.terms[name]; ok {
+		old.Add(old, c)
+		return
+	}
+	a.terms[name] = new(big.Int).Set(c)
+	a.order = append(a.order, name)
+}
+
+func (a *lin) addLin(b *lin, c *big.Int) {
+	for _, n := range b.order {
+		a.addAtom(n, new(big.Int).Mul(b.terms[n], c))
+	}
+	a.k.Add(a.k, new(big.Int).Mul(b.k, c))
+}
+
+func (a *lin) render() string {
+	var parts []string
+	for _, n := range a.order {
+		c := a.terms[n]
+		switch {
+		case c.Sign() == 0:
+		case c.Cmp(bigOne) == 0:
+			parts = append(parts, n)
+		default:
+			parts = append(parts, "(* "+sInt(c)+" "+n+")")
+		}
+	}
+	if a.k.Sign() != 0 || len(parts) == 0 {
+		parts = append(parts, sInt(a.k))
+	}
+	if len(parts) == 1 {
+		return parts[0]
+	}
+	return "(+ " + strings.Join(parts, " ") + ")"
+}
+
+// U returns an unwrapped linear form e with value(t) ≡ e (mod 2^W) and the interval of e.
+func (l *Lowerer) U(t *Term) (*lin, *big.Int, *big.Int) {
 	switch t.Op {
 	case OAdd:
 		x, xl, xh := l.U(t.A[0])
 		y, yl, yh := l.U(t.A[1])
-		return "(+ " + x + " " + y + ")", new(big.Int).Add(xl, yl), new(big.Int).Add(xh, yh)
+		r := newLin()
+		r.addLin(x, bigOne)
+		r.addLin(y, bigOne)
+		return r, new(big.Int).Add(xl, yl), new(big.Int).Add(xh, yh)
 	case OSub:
+		if !t.A[0].IsConst() && l.knownLe(t.A[1], t.A[0]) {
+			// b <= a is known for the machine values: use the canonical operands, no underflow possible
+			xe, ye := l.T(t.A[0]), l.T(t.A[1])
+			xl, xh := l.iv(t.A[0])
+			if !l.hasIv(t.A[0]) {
+				xl, xh = bigZero, maxOfW(t.W)
+			}
+			yl, yh := l.iv(t.A[1])
+			if !l.hasIv(t.A[1]) {
+				yl, yh = bigZero, maxOfW(t.W)
+			}
+			lo, hi := new(big.Int).Sub(xl, yh), new(big.Int).Sub(xh, yl)
+			if lo.Sign() < 0 {
+				lo = big.NewInt(0)
+			}
+			r := newLin()
+			r.addAtom(xe, bigOne)
+			l.atomIv[xe] = [2]*big.Int{bigZero, maxOfW(t.W)}
+			if !t.A[1].IsConst() {
+				l.atomIv[ye] = [2]*big.Int{bigZero, maxOfW(t.W)}
+			}
+			if t.A[1].IsConst() {
+				r.k.Sub(r.k, t.A[1].ConstBig())
+			} else {
+				r.addAtom(ye, big.NewInt(-1))
+			}
+			return r, lo, hi
+		}
 		x, xl, xh := l.U(t.A[0])
 		y, yl, yh := l.U(t.A[1])
 		lo, hi := new(big.Int).Sub(xl, yh), new(big.Int).Sub(xh, yl)
-		if lo.Sign() < 0 && xl.Sign() >= 0 && xh.Cmp(maxOfW(t.W)) <= 0 && yl.Sign() >= 0 && yh.Cmp(maxOfW(t.W)) <= 0 && l.knownLe(t.A[1], t.A[0]) {
-			// both operands are canonical machine values and b <= a is known: no underflow
-			lo = big.NewInt(0)
-		}
-		return "(- " + x + " " + y + ")", lo, hi
+		r := newLin()
+		r.addLin(x, bigOne)
+		r.addLin(y, big.NewInt(-1))
+		return r, lo, hi
 	case OMul:
 		c, v := t.A[1], t.A[0]
 		if c.IsConst() {
 			x, xl, xh := l.U(v)
 			k := c.ConstBig()
-			return "(* " + x + " " + k.String() + ")", new(big.Int).Mul(xl, k), new(big.Int).Mul(xh, k)
+			r := newLin()
+			r.addLin(x, k)
+			return r, new(big.Int).Mul(xl, k), new(big.Int).Mul(xh, k)
 		}
 	case OShl:
 		if t.A[1].IsConst() && t.A[1].C < uint64(t.W) {
 			x, xl, xh := l.U(t.A[0])
 			k := pow2(uint(t.A[1].C))
-			return "(* " + x + " " + k.String() + ")", new(big.Int).Mul(xl, k), new(big.Int).Mul(xh, k)
+			r := newLin()
+			r.addLin(x, k)
+			return r, new(big.Int).Mul(xl, k), new(big.Int).Mul(xh, k)
 		}
+	case OConst:
+		r := newLin()
+		r.k.Set(t.ConstBig())
+		return r, t.ConstBig(), t.ConstBig()
 	}
 	e := l.T(t)
 	lo, hi := l.iv(t)
-	return e, lo, hi
+	if !l.hasIv(t) {
+		lo, hi = bigZero, maxOfW(t.W)
+	}
+	if old, ok := l.atomIv[e]; !ok || (lo.Cmp(old[0]) <= 0 && hi.Cmp(old[1]) >= 0) {
+		l.atomIv[e] = [2]*big.Int{lo, hi} // keep the widest interval seen for this expression (context independent)
+	}
+	r := newLin()
+	r.addAtom(e, bigOne)
+	return r, lo, hi
+}
+
+type splitRec struct {
+	x        string // the split expression X = H*2^k + L
+	k        uint
+	xlo, xhi *big.Int
+}
+
+// substLo rewrites low halves  L = X - H*2^k  (k = wrap width) into X: the result is congruent modulo 2^k and lets
+// the solver reason about the wide mathematical value (Barrett / Montgomery style code).
+func (l *Lowerer) substLo(a *lin, lo, hi *big.Int, w uint8) (*lin, *big.Int, *big.Int, bool) {
+	changed := false
+	r := newLin()
+	r.k.Set(a.k)
+	nlo, nhi := new(big.Int).Set(lo), new(big.Int).Set(hi)
+	for _, n := range a.order {
+		c := a.terms[n]
+		rec, ok := l.loOf[n]
+		if !ok || rec.k != uint(w) || c.Sign() == 0 {
+			r.addAtom(n, c)
+			continue
+		}
+		changed = true
+		r.addAtom(rec.x, c)
+		lmax := new(big.Int).Sub(pow2(rec.k), bigOne)
+		// remove the contribution of L in [0,lmax], add that of X in [xlo,xhi]
+		if c.Sign() > 0 {
+			nlo.Add(nlo, new(big.Int).Mul(c, rec.xlo))
+			nhi.Sub(nhi, new(big.Int).Mul(c, lmax))
+			nhi.Add(nhi, new(big.Int).Mul(c, rec.xhi))
+		} else {
+			nlo.Sub(nlo, new(big.Int).Mul(c, lmax))
+			nlo.Add(nlo, new(big.Int).Mul(c, rec.xhi))
+			nhi.Add(nhi, new(big.Int).Mul(c, rec.xlo))
+		}
+	}
+	return r, nlo, nhi, changed
+}
+
+// reduceCoefs replaces every coefficient by its least-absolute residue modulo 2^w (the value is only needed
+// modulo 2^w).  For Barrett/Montgomery style code this turns the low-word computation into the small mathematical
+// value it represents, so that the wrap count becomes (nearly) constant.
+func (l *Lowerer) reduceCoefs(a *lin, w uint8) (*lin, *big.Int, *big.Int, bool) {
+	m := pow2(uint(w))
+	half := pow2(uint(w) - 1)
+	changed := false
+	r := newLin()
+	lo, hi := new(big.Int), new(big.Int)
+	red := func(c *big.Int) *big.Int {
+		x := new(big.Int).Mod(c, m)
+		if x.Cmp(half) > 0 {
+			x.Sub(x, m)
+		}
+		return x
+	}
+	for _, n := range a.order {
+		c := a.terms[n]
+		if c.Sign() == 0 {
+			continue
+		}
+		c2 := red(c)
+		if c2.Cmp(c) != 0 {
+			changed = true
+		}
+		iv, ok := l.atomIv[n]
+		if !ok {
+			return nil, nil, nil, false
+		}
+		r.addAtom(n, c2)
+		if c2.Sign() > 0 {
+			lo.Add(lo, new(big.Int).Mul(c2, iv[0]))
+			hi.Add(hi, new(big.Int).Mul(c2, iv[1]))
+		} else {
+			lo.Add(lo, new(big.Int).Mul(c2, iv[1]))
+			hi.Add(hi, new(big.Int).Mul(c2, iv[0]))
+		}
+	}
+	k2 := red(a.k)
+	if k2.Cmp(a.k) != 0 {
+		changed = true
+	}
+	r.k.Set(k2)
+	lo.Add(lo, k2)
+	hi.Add(hi, k2)
+	return r, lo, hi, changed
+}
+
+// wrapLin wraps a linear form (applying the low-half substitution profile when enabled).
+func (l *Lowerer) wrapLin(a *lin, lo, hi *big.Int, w uint8) (string, *big.Int, *big.Int) {
+	if lo.Sign() >= 0 && hi.Cmp(maxOfW(w)) <= 0 {
+		return a.render(), lo, hi
+	}
+	if l.LoSubst {
+		if b, blo, bhi, ok := l.substLo(a, lo, hi, w); ok {
+			return l.wrap(b.render(), blo, bhi, w)
+		}
+	}
+	if l.CoefReduce {
+		if b, blo, bhi, ok := l.reduceCoefs(a, w); ok {
+			return l.wrap(b.render(), blo, bhi, w)
+		}
+	}
+	return l.wrap(a.render(), lo, hi, w)
 }
 
 // wrap reduces an Int expression with interval [lo,hi] into [0,2^w).
@@ -574,6 +773,7 @@ func (l *Lowerer) split(ex string, lo, hi *big.Int, k uint) (string, string, *bi
 		return h, lw, hlo, hhi
 	}
 	h, lw := l.fresh("hi", "Int"), l.fresh("lo", "Int")
+	l.loOf[lw] = splitRec{x: ex, k: k, xlo: lo, xhi: hi}
 	l.asserts = append(l.asserts, fmt.Sprintf("(= %s (+ (* %s %s) %s))", ex, h, m, lw))
 	l.asserts = append(l.asserts, fmt.Sprintf("(and (<= 0 %s) (< %s %s) (<= %s %s) (<= %s %s))", lw, lw, m, sInt(hlo), h, h, sInt(hhi)))
 	l.splits[key] = [2]string{h, lw}
@@ -607,13 +807,13 @@ func (l *Lowerer) intBV(t *Term) string {
 		return l.uf(t)
 	case OAdd, OSub:
 		ex, lo, hi := l.U(t)
-		r, lo, hi := l.wrap(ex, lo, hi, t.W)
+		r, lo, hi := l.wrapLin(ex, lo, hi, t.W)
 		l.setiv(t, lo, hi)
 		return r
 	case OMul:
 		if t.A[1].IsConst() {
 			ex, lo, hi := l.U(t)
-			r, lo, hi := l.wrap(ex, lo, hi, t.W)
+			r, lo, hi := l.wrapLin(ex, lo, hi, t.W)
 			l.setiv(t, lo, hi)
 			return r
 		}
@@ -631,7 +831,7 @@ func (l *Lowerer) intBV(t *Term) string {
 				return "0"
 			}
 			ex, lo, hi := l.U(t)
-			r, lo, hi := l.wrap(ex, lo, hi, t.W)
+			r, lo, hi := l.wrapLin(ex, lo, hi, t.W)
 			l.setiv(t, lo, hi)
 			return r
 		}
@@ -899,8 +1099,10 @@ func coneOfInfluence(assumptions []*Term, goal *Term) []*Term {
 }
 
 // BuildQuery creates the script for: assumptions ∧ ¬goal  (goal == nil: just the assumptions).
-func BuildQuery(ts *TermStore, be Backend, id string, assumptions []*Term, goal *Term, inputs []InputVar) *Query {
+func BuildQuery(ts *TermStore, be Backend, id string, assumptions []*Term, goal *Term, inputs []InputVar, profile int) *Query {
 	l := NewLowerer(be, ts)
+	l.LoSubst = profile == 1
+	l.CoefReduce = profile == 0
 	l.AddFacts(assumptions)
 	var as []string
 	for _, a := range assumptions {
